@@ -340,6 +340,36 @@ def run(ctx, prop, rule_text):
     return ctx.finish(rule=rule_text, extra=extra)
 
 
+def recase_oracle(ctx, n):
+    """C17 at the linters: the same program with every use, type reference, rule name (`Purge`, `inherited`, `self`, `pass`,
+    method names in inherited calls) written in another letter case — declarations as written — must get the same diagnostics
+    (all classes except the naming conventions, per method, relative ranges), from the REAL diagnostics request"""
+    texts, cases = [], []
+    for i in range(n):
+        p = G.gen_prog(ctx.rng, i % 2)
+        for q in (p, G.recase(p, ctx.rng), G.recase(p, None)):
+            text, exp, per = G.render(q)
+            cases.append({"text": text, "kind": "recase", "prog": q})
+            texts.append(text)
+        ctx.count("lint-recase-triple")
+    out = ctx.run_harness("lint", ["lint " + esc(t) for t in texts], timeout=900)
+    mine = lambda cr: not cr.startswith("naming:")
+    for i in range(0, len(cases), 3):
+        base = parse_out(out[i])
+        if base is None:
+            continue
+        bpm = per_method_impl(cases[i], base[0], mine)
+        for j in (i + 1, i + 2):
+            o = parse_out(out[j])
+            if o is None:
+                ctx.oracle_fail("C17:diagnostics-request-failed", "no diagnostics for the re-cased program", {"mode": "lint", "text": cases[j]["text"], "implementation": out[j][:300]})
+                continue
+            pm = per_method_impl(cases[j], o[0], mine)
+            if pm != bpm:
+                ctx.oracle_fail("C17:diagnostics", "diagnostics (other than naming conventions) changed when uses / type references / rule names were re-cased",
+                                {"mode": "lint", "text": cases[j]["text"], "as_written": cases[i]["text"], "per_method_as_written": bpm, "per_method_recased": pm})
+
+
 def per_method_impl(case, items, mine):
     """implementation items grouped by the method they lie in, relative to the method's first line"""
     text = case["text"]
